@@ -18,6 +18,7 @@ def _one_gen(e):
 
 def _bind_elem(eng, st, g, coll):
     """Returns (substate, bound z3 variables, membership condition, element value)."""
+    eng.consume(coll, st)
     sub = st.clone()
     if isinstance(coll, E._SpaceKeysIter):
         k = z3.Const(fresh_name("ck"), Name)
@@ -57,11 +58,26 @@ def _bind_elem(eng, st, g, coll):
     raise OutOfSubset(f"comprehension over {ty}")
 
 
+class _InComprehension:
+    """while the element / condition expressions are evaluated: calls must have a pure (functional) view, because what a generic
+    contract application assumes about its fresh result would be lost with the sub-state and the result would not depend on the bound variable"""
+
+    def __init__(self, eng):
+        self.eng = eng
+
+    def __enter__(self):
+        self.eng._comp_depth = getattr(self.eng, "_comp_depth", 0) + 1
+
+    def __exit__(self, *a):
+        self.eng._comp_depth -= 1
+
+
 def _conds(eng, sub, g):
     cs = []
-    for c in g.ifs:
-        cs.append(eng.truth(eng.ev(c, sub)))
-        eng.narrow(c, sub, True)
+    with _InComprehension(eng):
+        for c in g.ifs:
+            cs.append(eng.truth(eng.ev(c, sub)))
+            eng.narrow(c, sub, True)
     return z3.And(cs) if cs else z3.BoolVal(True)
 
 
@@ -74,7 +90,8 @@ def quantify(eng, e, st, which):
     sub, bound, member, elem, _ = b
     n0 = len(eng.obls)
     flt = _conds(eng, sub, g)
-    body = eng.truth(eng.ev(e.elt, sub))
+    with _InComprehension(eng):
+        body = eng.truth(eng.ev(e.elt, sub))
     _requantify_obligations(eng, n0, bound, z3.And(member, flt))
     if which == "any":
         return vbool(z3.Exists(bound, z3.And(member, flt, body)))
@@ -102,7 +119,8 @@ def evaluate(eng, e, st, kind):
     n0 = len(eng.obls)
     flt = _conds(eng, sub, g)
     if kind == "dict":
-        kv, vv = eng.ev(e.key, sub), eng.ev(e.value, sub)
+        with _InComprehension(eng):
+            kv, vv = eng.ev(e.key, sub), eng.ev(e.value, sub)
         _requantify_obligations(eng, n0, bound, z3.And(member, flt))
         # supported: key is the bound key itself (filter / value map on a Space)
         if src[0] == "space" and kv.ty == TName and z3.eq(kv.t, src[2]) and vv.ty == TInt:
@@ -117,7 +135,8 @@ def evaluate(eng, e, st, kind):
             st.assume(TSpace.wf(res.t))
             return res
         raise OutOfSubset("dict comprehension shape")
-    ev = eng.ev(e.elt, sub)
+    with _InComprehension(eng):
+        ev = eng.ev(e.elt, sub)
     if isinstance(ev, E._PyTuple):
         ev = eng.tuple_val(ev, sub)
     _requantify_obligations(eng, n0, bound, z3.And(member, flt))
